@@ -1869,6 +1869,16 @@ def p_instanceDeclaration(p):
 
             if embedded_object_type:
                 if pval:
+                    for pv in pval if isinstance(pval, list) else [pval]:
+                        if not isinstance(pv, str):
+                            raise MOFParseError(
+                                msg=_format(
+                                    "Cannot compile instance of {0!A} because "
+                                    "it specifies embedded {1} property {2!A} "
+                                    "with a value that is not a string "
+                                    "containing the MOF of an instance: {3!r}",
+                                    cname, embedded_object_type, pname, pv),
+                                parser_token=p)
                     objs = p.parser.mofcomp.compile_embedded_value(pval, ns)
                     for obj in objs:
                         if not isinstance(inst, allowed_types):
